@@ -551,3 +551,65 @@ Print Assumptions C01_src_init_sig_order.
 Print Assumptions C01_src_init_constants.
 Print Assumptions C01_construct_k_without_constants.
 Print Assumptions C01_construct_k_refuses_constant.
+
+(* ------------------------------------------------------------------ tie of the entry points to the source, function by function
+   cast_to, from_other_class and shallow_clone_with_overrides are translated to Gallina on every run (Gen/EntrySrc.v).
+   With `self` the current instance (its __dict__ = the model's attributes + typedpy's two bookkeeping entries), classes
+   as objects of the heap and `C( **kwargs)` = the validating constructor [construct] (Struct/EntrySrcModel.v), the
+   translation of today's source IS the entry point [run_entry] the soundness theorems above quantify over: it
+   delegates to the constructor of the right class with exactly the keywords the model computes (cast_to after the
+   subclass / superclass test, keeping the target's fields that are set; from_other_class with every field of the
+   target the source has and no override names, then the overrides).  shallow_clone_with_overrides builds the same
+   bindings in another ORDER ({**fields, **overrides}: an overridden field keeps its place), [clone_kwargs_src]. *)
+From TP Require Import Base.PyObj Struct.EntrySrcModel Struct.EntrySrcProofs Gen.EntrySrc.
+
+Theorem C01_src_entry_cast_to :
+  forall (re_match : N -> pystr -> bool) (e : env) (cd ct : classdef) (a : attrs),
+    find_class e (c_name cd) = Some cd -> find_class e (c_name ct) = Some ct ->
+    names_ok a = true -> vals_defined a = true -> defaults_defined cd = true -> fields_ok ct = true ->
+    entry_view (Structure__cast_to (entry_heap e cd ct) (entry_world re_match e cd ct) (ref (cobj (c_name ct))) (inst_state a)) =
+    run_entry re_match e (PStruct (c_name cd) a) (ECastTo (c_name ct)).
+Proof. exact generated_cast_to_is_entry. Qed.
+
+Theorem C01_src_entry_from_other_class :
+  forall (re_match : N -> pystr -> bool) (e : env) (cd ct : classdef) (a : attrs) (over : kwargs),
+    find_class e (c_name cd) = Some cd -> find_class e (c_name ct) = Some ct ->
+    names_ok a = true -> vals_defined a = true -> defaults_defined cd = true -> fields_ok ct = true ->
+    has_dup (map fst over) = false -> vals_defined over = true ->
+    entry_view (Structure__from_other_class (entry_heap e cd ct) (entry_world re_match e cd ct) (ref (cobj (c_name ct)))
+                  (ref (s2p "self")) PNone (kw_dict over) (inst_state a)) =
+    run_entry re_match e (PStruct (c_name cd) a) (EFromOther (c_name ct) over).
+Proof. exact generated_from_other_is_entry. Qed.
+
+Theorem C01_src_entry_clone :
+  forall (re_match : N -> pystr -> bool) (e : env) (cd : classdef) (a : attrs) (over : kwargs),
+    find_class e (c_name cd) = Some cd ->
+    names_ok a = true -> vals_defined a = true -> defaults_defined cd = true -> fields_ok cd = true ->
+    entry_view (Structure__shallow_clone_with_overrides (entry_heap e cd cd) (entry_world re_match e cd cd) (kw_dict over) (inst_state a)) =
+    construct re_match e cd (clone_kwargs_src cd a over).
+Proof. exact generated_clone_is_constructor. Qed.
+
+Theorem C01_src_entry_clone_bindings :
+  forall (cd : classdef) (a : attrs) (over : kwargs) (n : pystr),
+    has_dup (map fst over) = false ->
+    alist_get (clone_kwargs_src cd a over) n = alist_get (clone_kwargs cd a over) n.
+Proof. exact clone_kwargs_src_same_bindings. Qed.
+
+(* non-vacuity: Point3(x=1, z=True, extra='e') cast to Point, re-read by Point.from_other_class with an override, cloned *)
+Example C01_src_entry_nonvacuous :
+  let a3 := [(s2p "x", PNum (NInt 1)); (s2p "z", PBool true); (s2p "extra", PStr (s2p "e"))] in
+  let over := [(s2p "x", PNum (NInt 7))] in
+  names_ok a3 = true /\ vals_defined a3 = true /\ defaults_defined ex_sub = true /\ fields_ok ex_point = true /\ fields_ok ex_sub = true /\
+  entry_view (Structure__cast_to (entry_heap ex_env ex_sub ex_point) (entry_world (fun _ _ => true) ex_env ex_sub ex_point)
+                (ref (cobj (s2p "Point"))) (inst_state a3)) =
+    Ok (PStruct (s2p "Point") [(s2p "x", PNum (NInt 1)); (s2p "y", PNum (NFlt 1 1))]) /\
+  entry_view (Structure__shallow_clone_with_overrides (entry_heap ex_env ex_sub ex_sub) (entry_world (fun _ _ => true) ex_env ex_sub ex_sub)
+                (kw_dict over) (inst_state a3)) =
+    Ok (PStruct (s2p "Point3") [(s2p "x", PNum (NInt 7)); (s2p "y", PNum (NFlt 1 1)); (s2p "z", PBool true)]).
+Proof. repeat split; vm_compute; reflexivity. Qed.
+
+Print Assumptions C01_src_entry_cast_to.
+Print Assumptions C01_src_entry_from_other_class.
+Print Assumptions C01_src_entry_clone.
+Print Assumptions C01_src_entry_clone_bindings.
+Print Assumptions C01_src_entry_nonvacuous.
